@@ -53,6 +53,10 @@ ASSUMPTIONS = [
     "the physical coordinate",
     "control characters other than CR and LF, and CR immediately followed by LF, are not modelled "
     "(invariants only); codepage 437 only, active page = visible page = 0",
+    "cursor-movement characters CHR$(11), CHR$(28)-CHR$(31): the manual says they move the cursor "
+    "(home / one column or row) and is silent about the screen edges, so only the certain part is "
+    "asserted: a PRINT of nothing but these characters (and BEL) ending in ';' changes no character "
+    "cell anywhere on the screen and leaves the cursor inside the screen and the window",
     "KEY ON bar text is taken from the screen (only 'row 25 blank after KEY OFF' is predicted)",
 ]
 
@@ -62,6 +66,7 @@ H = 25
 MODE_WIDTH = {1: 40, 2: 80, 7: 40, 8: 80, 9: 80}
 WIDTH_SWITCH = {(1, 80): 2, (2, 40): 1, (7, 80): 8, (8, 40): 7, (9, 40): 7}
 MAXC = 24
+MOVE_ONLY = (7, 11, 28, 29, 30, 31)
 
 
 # ---------------------------------------------------------------------------------------------
@@ -675,6 +680,19 @@ def _run(case, ops, sess, res):
                                  idx, desc, i, top, bot, before_grid[i - 1].rstrip(),
                                  grid[i - 1].rstrip()))
                     break
+            # a PRINT that consists of cursor-movement characters only (VT 11, FS 28, GS 29, RS 30,
+            # US 31; BEL 7 makes no mark either) and ends in ';' "moves the cursor" (manual): whatever
+            # happens at the edges, it never changes a character cell anywhere on the screen
+            if (kind == 'print' and not op.get('nl') and items and any(items)
+                    and all(ch in MOVE_ONLY for s in items for ch in s)):
+                res.label('move-only-print')
+                for i in range(1, H + 1):
+                    if grid[i - 1] != before_grid[i - 1]:
+                        res.fail('cursor-move.changed-screen',
+                                 'step %d %s from cursor %r (window %d-%d): row %d changed: '
+                                 '%r -> %r' % (idx, desc, sorted(ref.reported()), top, bot, i,
+                                               before_grid[i - 1].rstrip(), grid[i - 1].rstrip()))
+                        break
             cands = resync(grid, R, C, ref)
         else:
             live = []
@@ -872,7 +890,11 @@ def strat_item():
         [chr(c) for c in (7, 8, 9, 10, 11, 12, 13, 28, 29, 30, 31, 1, 0, 127)] + list('abcXYZ 019')),
         min_size=1, max_size=30)
     raw = st.builds(lambda t: {'raw': t}, ctrl)
-    return st.sampled_from([0] * 11 + [1]).flatmap(lambda k: raw if k else rel)
+    # cursor-movement characters only (content must stay untouched, see 'move-only-print')
+    move = st.builds(lambda t: {'raw': t}, st.text(
+        alphabet=st.sampled_from([chr(c) for c in (31, 31, 28, 28, 29, 30, 11, 7)]),
+        min_size=1, max_size=4))
+    return st.sampled_from([0] * 11 + [1, 2]).flatmap(lambda k: (rel, raw, move)[k])
 
 
 def strat_probe():
@@ -976,6 +998,13 @@ REGRESSIONS = [
     # scrolling inside a two-row window leaves the other rows alone
     {'video': 'cga', 'ops': [_p('top', True), {'op': 'view', 'a': 5, 'b': 6},
                              _p('a', True), _p('b', True), _p('c', True), _p('d' * 90, True)]},
+    # cursor-down on the bottom row of the window / cursor-right in its last column must not scroll
+    {'video': 'cga', 'ops': [_p('top line', True), {'op': 'locate', 'rk': 'abs', 'rv': 25, 'ck': 'abs',
+                                                    'cv': 6}, _p('\x1f'),
+                             {'op': 'locate', 'rk': 'abs', 'rv': 25, 'ck': 'abs', 'cv': 81},
+                             _p('\x1c'), {'op': 'view', 'a': 3, 'b': 5},
+                             _p('in window', True), {'op': 'locate', 'rk': 'abs', 'rv': 6, 'ck': 'abs',
+                                                     'cv': 3}, _p('\x1f\x1f'), _p('\x0b\x1e\x1d')]},
     # illegal LOCATE / VIEW PRINT leave the cursor alone
     {'video': 'vga', 'ops': [_p('abc'), {'op': 'locate', 'rk': 'abs', 'rv': 27, 'ck': 'abs',
                                          'cv': 3},
@@ -1003,5 +1032,7 @@ KILLS = [
     "textscreen.screen_fn_: reads column+1 -> screenfn.value",
     "ScrollArea.init_mode: window kept over WIDTH/SCREEN -> print.screen / screenfn.legal-rejected",
     "buffers.scroll_up: deletes the wrong text row / inserts the blank row one too high -> print.screen",
+    "console.write: CHR$(11)/CHR$(28)-CHR$(31) handlers call set_pos without scroll_ok=False (cursor "
+    "down on the bottom row of the window scrolls it) -> cursor-move.changed-screen",
     "devicebase.SCRNFile.write: fit rule '>' -> '>=' -> print.screen; fit rule removed -> print.screen",
 ]
